@@ -120,6 +120,9 @@ func init() {
 		mirrorOps[op] = "gen." + op
 		execs["gen."+op] = func(a []string) string { return execs[op](a) }
 	}
+	// pkg/slip10/elliptic (stage 13): NewPrivateKey / PrivateKey.Shift / PublicKey.Shift answered by the generated code
+	mirrorOps["slip10.shift"] = "gen.slip10.shift"
+	execs["gen.slip10.shift"] = func(a []string) string { return execs["slip10.shift"](a) }
 	// pkg/bip39 (stage 12): EntropyToMnemonic / MnemonicToEntropy answered by the generated code, same reply format
 	for _, op := range []string{"bip39.enc", "bip39.dec"} {
 		op := op
